@@ -78,9 +78,14 @@ class C18(Prop):
 
         result_obj = AwaitableResult() if awaitable_result else Obj("result")
         exc_obj = InjectedBase("boom") if raises == 2 else Injected("boom")
+        cause_obj = Injected("the cause")
+        exc_obj.__cause__ = cause_obj  # as left by `raise X from Y` inside the function
         seen = {"calls": 0, "thread": None, "args": None, "state": None, "parked": 0, "beats_while_parked": 0}
         hb = {"n": 0, "parked_now": False}
         is_method = kind.endswith("-method")
+        # two instances of the class call the method concurrently (both coroutines are created before either starts)
+        second_instance = bool(is_method and s.draw(2, "second-instance"))
+        seen["receivers"] = {}
         uses_thread = kind.startswith("asynchronous")
         expect_state = {"inst": None}
 
@@ -122,6 +127,7 @@ class C18(Prop):
 
             def m(self, a, b=2):
                 """doc of f"""
+                seen["receivers"][getattr(self, "expected", "?")] = getattr(self, "label", "?")
                 return body((a, b), {})
             calls = [((1,), {}), ((1, 5), {}), ((1,), {"b": 7})]
             bound = [((1, 2), {}), ((1, 5), {}), ((1, 7), {})]
@@ -136,6 +142,7 @@ class C18(Prop):
 
             def m(self, *args, **kwargs):
                 """doc of f"""
+                seen["receivers"][getattr(self, "expected", "?")] = getattr(self, "label", "?")
                 return body(args, kwargs)
             calls = [((), {}), ((1, "x"), {}), ((1,), {"k": 3, "z": None})]
             bound = [((), {}), ((1, "x"), {}), ((1,), {"k": 3, "z": None})]
@@ -150,6 +157,7 @@ class C18(Prop):
 
             def m(self, a, /, b, *, c=3):
                 """doc of f"""
+                seen["receivers"][getattr(self, "expected", "?")] = getattr(self, "label", "?")
                 return body((a, b), {"c": c})
             calls = [((1, 2), {}), ((1,), {"b": 4}), ((1, 2), {"c": 9})]
             bound = [((1, 2), {"c": 3}), ((1, 4), {"c": 3}), ((1, 2), {"c": 9})]
@@ -169,11 +177,15 @@ class C18(Prop):
         elif kind == "asynchronous-method":
             original = m
             Host = type("Host", (), {"m": asynchronous(m)})
-            wrapped = Host().m
+            first_host = Host()
+            first_host.label = "first"
+            wrapped = first_host.m
         elif kind == "asynchronous(executor)-method":
             original = m
             Host = type("Host", (), {"m": asynchronous(executor=explicit_ex)(m)})
-            wrapped = Host().m
+            first_host = Host()
+            first_host.label = "first"
+            wrapped = first_host.m
         elif kind == "wrap_async-sync":
             wrapped = wrap_async(f)
         elif kind == "wrap_async-async":
@@ -284,6 +296,16 @@ class C18(Prop):
             try:
                 if kind == "traced-sync":
                     r = wrapped(*call_args, **call_kwargs)
+                elif second_instance:
+                    other = Host()
+                    other.label = "second"
+                    # which receiver each call is expected to run on is noted on the instance just before the call is made
+                    first_host.expected, other.expected = "first", "second"
+                    c1 = first_host.m(*call_args, **call_kwargs)
+                    c2 = other.m(*call_args, **call_kwargs)
+                    r, r2 = await asyncio.gather(c1, c2, return_exceptions=True)
+                    if isinstance(r, BaseException):
+                        raise r
                 else:
                     r = await wrapped(*call_args, **call_kwargs)
             except SimStop:
@@ -321,9 +343,18 @@ class C18(Prop):
             sim.fail_post("outcome", f"{kind}: caller got {out.get('kind')} {out.get('obj')!r}, function produced {want[0]} {want[1]!r}",
                           kind=kind, got=type(out.get("obj")).__name__)
             return
-        if seen["calls"] != 1:
+        if raises and (out["obj"].__cause__ is not cause_obj or not out["obj"].__suppress_context__):
+            sim.fail_post("exception-chain", f"{kind}: the raised exception arrived with __cause__={out['obj'].__cause__!r} "
+                          f"(function raised it `from` {cause_obj!r})", kind=kind)
+            return
+        if seen["calls"] != 1 + int(second_instance):
             sim.fail_post("call-count", f"{kind}: function body ran {seen['calls']} times", kind=kind)
             return
+        if second_instance:
+            if seen["receivers"] != {"first": "first", "second": "second"}:
+                sim.fail_post("wrong-receiver", f"{kind}: two instances called their method concurrently; the calls ran on receivers "
+                              f"{seen['receivers']} (call -> receiver)", kind=kind)
+                return
         if seen["args"] != (want_args[0], want_args[1]):
             sim.fail_post("arguments", f"{kind}: function received {seen['args']}, call was {call_args} {call_kwargs} "
                           f"(expected binding {want_args})", kind=kind)
@@ -334,7 +365,7 @@ class C18(Prop):
                 sim.fail_post("ran-on-loop-thread", f"{kind}: the function ran on the event-loop thread", kind=kind)
                 return
             want_ex = explicit_ex if "executor" in kind else default_ex
-            if not jobs or jobs[0].executor is not want_ex or len(jobs) != 1:
+            if not jobs or any(j.executor is not want_ex for j in jobs) or len(jobs) != 1 + int(second_instance):
                 sim.fail_post("wrong-executor", f"{kind}: ran on {[j.executor.name for j in jobs]}, expected {want_ex.name}", kind=kind)
                 return
             if seen["parked"]:
